@@ -1,7 +1,166 @@
-(* C17 — floor stub, replaced by the property theorems *)
+(* C17 — unknown enumeration values are preserved, flagged and history-independent.
+   Property theorems only; each is closed by [exact <lemma>] and followed by Print Assumptions.
+
+   [d] is a class body (name, value entries, aliases included); [table_ok d]: at least one member and no member name
+   with the reserved prefix — checked by computation for every IntEnum subclass of the package
+   (C17_package_enums_ok).  [reachable d st]: st is the state of the class after any list of operations the
+   property quantifies over ([allowed]): integer conversions strict or lenient, [] with ints, strict name
+   conversions, name lookups outside the hidden namespace, list / len / reversed, and lenient conversion of a name
+   only when the name resolves among the defined members. *)
 From Coq Require Import ZArith List Bool String.
-From FEC Require Import Generated.DynEnumTables Models.DynEnumM.
+From FEC Require Import Generated.DynEnumTables Models.DynEnumM Proofs.DynEnumP Proofs.DynEnumMaskP Proofs.DynEnumTablesP.
 Import ListNotations.
 Open Scope Z_scope.
-Example C17_model_runs : snd (call (init [("A"%string, 1)]) 7 false) = OMember ("_U_7"%string, 7).
-Proof. vm_compute. reflexivity. Qed.
+
+(* Converting any integer with unrecognised values permitted, after any history, yields a member whose integer
+   value is that integer ... *)
+Theorem C17_lenient_preserves : forall d st v, table_ok d = true -> reachable d st ->
+  exists m, snd (call st v false) = OMember m /\ snd m = v /\ reachable d (fst (call st v false)).
+Proof. exact lenient_preserves. Qed.
+Print Assumptions C17_lenient_preserves.
+
+(* ... which reports itself as unrecognised exactly when the integer is not the value of a defined member ... *)
+Theorem C17_unrecognised_iff : forall d st v m, table_ok d = true -> reachable d st ->
+  snd (call st v false) = OMember m -> (is_hidden m = true <-> ~ In v (map snd d)).
+Proof. exact unrecognised_iff. Qed.
+Print Assumptions C17_unrecognised_iff.
+
+(* ... while the strict conversion of the same integer is refused, before and also after it has been seen
+   leniently, and leaves the class unchanged. *)
+Theorem C17_strict_refuses_unknown : forall d st v, table_ok d = true -> reachable d st -> ~ In v (map snd d) ->
+  call st v true = (st, OErr ValueError) /\
+  call (fst (call st v false)) v true = (fst (call st v false), OErr ValueError).
+Proof. exact strict_refuses_unknown. Qed.
+Print Assumptions C17_strict_refuses_unknown.
+
+(* Defined values convert, strictly and leniently, to the defined member, unflagged, in every reachable state. *)
+Theorem C17_strict_accepts_known : forall d st v, table_ok d = true -> reachable d st -> In v (map snd d) ->
+  exists m, call st v true = (st, OMember m) /\ call st v false = (st, OMember m) /\
+            by_value d v = Some m /\ snd m = v /\ is_hidden m = false.
+Proof. exact strict_accepts_known. Qed.
+Print Assumptions C17_strict_accepts_known.
+
+(* Defined members, iteration order, length, reversed order, name lookups (as given / upper-cased, strict
+   conversion of a name, case-insensitive) and lookups by defined value are the same in every reachable state
+   as in the initial one.  Names with the reserved prefix are the library's hidden namespace and are excluded. *)
+Theorem C17_defined_view_invariant : forall d st, table_ok d = true -> reachable d st ->
+  defined st = d /\
+  iter st = iter (init d) /\ len st = len (init d) /\ reversed st = reversed (init d) /\
+  (forall s, hidden_ns s = false -> from_string st s = from_string (init d) s) /\
+  (forall s, hidden_ns s = false -> snd (call_name st s true) = snd (call_name (init d) s true)) /\
+  (forall s, hidden_ns_ci s = false -> from_string_ci st s = from_string_ci (init d) s) /\
+  (forall v, In v (map snd d) -> by_value (entries st) v = by_value d v /\ super_call st v = super_call (init d) v).
+Proof. exact defined_view_invariant. Qed.
+Print Assumptions C17_defined_view_invariant.
+
+(* History independence at full strength: along any allowed history, the public view of every answer (value,
+   flag, name of a recognised member, refusal, list, length) is the SPEC function of the class body and that one
+   operation — nothing that happened before matters. *)
+Theorem C17_history_independent : forall d ops, table_ok d = true -> Forall (fun o => allowed d o = true) ops ->
+  map abstract (snd (run (init d) ops)) = map (spec d) ops.
+Proof. exact history_independent. Qed.
+Print Assumptions C17_history_independent.
+
+(* The construct adapter (EnumAdapter/AutoEnum): a wire integer parsed leniently and serialised again is the same
+   integer, flagged iff unknown; the strict adapter refuses unknown integers. *)
+Theorem C17_adapter_preserves : forall d st v, table_ok d = true -> reachable d st ->
+  exists m, snd (adapter_decode st false v) = OMember m /\ adapter_encode m = v /\
+            (is_hidden m = true <-> ~ In v (map snd d)) /\
+            (~ In v (map snd d) -> snd (adapter_decode st true v) = OErr ValueError).
+Proof. exact adapter_preserves. Qed.
+Print Assumptions C17_adapter_preserves.
+
+(* Every IntEnum subclass of the package (tables regenerated from /repo) meets the hypotheses. *)
+Theorem C17_package_enums_ok : forall n d, table_of n = Some d -> table_ok d = true /\ NoDup (map fst d).
+Proof. exact package_enums_ok_lemma. Qed.
+Print Assumptions C17_package_enums_ok.
+
+(* Mask helpers: for any offset, any members at or above it and any list S of integers at or above it (members or
+   not, repeated or not, any order), to_values (to_bitmask S) is exactly the members whose value is in S, in
+   definition order, for unbounded integers. *)
+Theorem C17_mask_roundtrip : forall m (S : list Z),
+  (forall e, In e (m_values m) -> m_offset m <= snd e) ->
+  (forall v, In v S -> m_offset m <= v) ->
+  roundtrip m (map IVal S) = inl (spec_roundtrip (m_values m) S).
+Proof. exact mask_roundtrip_lemma. Qed.
+Print Assumptions C17_mask_roundtrip.
+
+(* "back to the same set": for S a set of member values the result has exactly the values of S. *)
+Theorem C17_mask_roundtrip_set : forall m (S : list Z) r,
+  (forall e, In e (m_values m) -> m_offset m <= snd e) ->
+  (forall v, In v S -> In v (map snd (m_values m))) ->
+  roundtrip m (map IVal S) = r ->
+  exists l, r = inl l /\ (forall v, In v (map snd l) <-> In v S) /\ (forall e, In e l -> In e (m_values m)).
+Proof. exact mask_roundtrip_set_lemma. Qed.
+Print Assumptions C17_mask_roundtrip_set.
+
+(* The same with member names mixed in, when [rt_pre] holds (members at or above the offset, names / values not
+   repeated, each name is that of a known member whose bit the mask class defines under that name). *)
+Theorem C17_mask_roundtrip_items : forall m items, rt_pre m items = true ->
+  roundtrip m items = inl (spec_roundtrip_items (m_values m) items).
+Proof. exact mask_roundtrip_items_lemma. Qed.
+Print Assumptions C17_mask_roundtrip_items.
+
+(* The package's helpers (SatelliteTypeMask, FrequencyBandMask ...): the model of the decorator applied to the
+   generated enum table reproduces the helper the interpreter built; every member can be selected by value, by
+   name and by lower-case name; every list of such items round-trips. *)
+Theorem C17_package_masks_roundtrip : forall k off base vals, In (k, off, base, vals) mask_tables ->
+  exists m, real_mask (fst k) = Some (inl m) /\ m_offset m = off /\ m_values m = vals /\
+    (forall e, In e vals -> item_ok m (IName (fst e)) = true /\ item_ok m (IName (lower (fst e))) = true /\ item_ok m (IVal (snd e)) = true) /\
+    (forall items, forallb (item_ok m) items = true -> roundtrip m items = inl (spec_roundtrip_items vals items)).
+Proof. exact package_masks_roundtrip. Qed.
+Print Assumptions C17_package_masks_roundtrip.
+
+(* A mask helper whose known members include one below the offset refuses every to_values call (negative shift):
+   the hypothesis of the round-trip theorems is necessary. *)
+Theorem C17_mask_below_offset_refuses : forall off mask vals, (exists e, In e vals /\ snd e < off) ->
+  to_values_from off mask vals = inr ValueError.
+Proof. exact to_values_from_err. Qed.
+Print Assumptions C17_mask_below_offset_refuses.
+
+(* Finding (recorded as known): a lenient conversion of a name the enumeration does not define is outside [allowed]
+   because it changes the view: the name becomes a visible member, its value is accepted strictly afterwards, the
+   value depends on the history, and a hidden name taken this way blocks the value it stands for. *)
+Theorem C17_lenient_unknown_name_refuted :
+  table_ok demo = true /\
+  allowed demo (OpCallName "Q" false) = false /\
+  let st := fst (call_name (init demo) "Q" false) in
+  iter st <> iter (init demo) /\ len st <> len (init demo) /\
+  snd (call_name st "Q" true) = OMember ("Q"%string, -1) /\
+  snd (call st (-1) true) = OMember ("Q"%string, -1) /\
+  snd (call_name (fst (call (init demo) (-1) false)) "Q" false) = OMember (hidden_name (-1), -1) /\
+  snd (call (fst (call_name (init demo) (hidden_name 7) false)) 7 false) = OErr TypeError.
+Proof. exact lenient_unknown_name_changes_view. Qed.
+Print Assumptions C17_lenient_unknown_name_refuted.
+
+(* Record of the repaired defect (90813ad): the inherited reversed() listed hidden members; the repaired one does not. *)
+Theorem C17_reversed_legacy_refuted :
+  table_ok demo = true /\
+  reversed_legacy (fst (call (init demo) 7 false)) <> reversed_legacy (init demo) /\
+  reversed (fst (call (init demo) 7 false)) = reversed (init demo).
+Proof. exact reversed_legacy_changes. Qed.
+Print Assumptions C17_reversed_legacy_refuted.
+
+(* Non-vacuity: a real table meets the hypotheses; a concrete allowed history reaches a state with hidden members;
+   the statements above say something about it; the mask hypotheses are met by a helper with an offset. *)
+Definition fb : list member := [("UNKNOWN"%string, 0); ("L1"%string, 1); ("L2"%string, 2); ("L5"%string, 5); ("L6"%string, 6)].
+Definition h1 : list op := [OpCall 7 false; OpCall (-3) false; OpIter; OpCall 7 true; OpCallName "l1" true;
+                            OpCallName (hidden_name 7) true; OpCallName "UNKNOWN" false; OpGetInt 2; OpLen; OpReversed].
+Example C17_nonvacuous :
+  table_of "fusion_engine_client.messages.signal_defs:FrequencyBand" = Some fb /\
+  table_ok fb = true /\ Forall (fun o => allowed fb o = true) h1 /\
+  extra (fst (run (init fb) h1)) = [(hidden_name 7, 7); (hidden_name (-3), -3)] /\
+  snd (run (init fb) h1) =
+    [OMember (hidden_name 7, 7); OMember (hidden_name (-3), -3); OList fb; OErr ValueError; OMember ("L1"%string, 1);
+     OErr KeyError; OMember ("UNKNOWN"%string, 0); OMember ("L2"%string, 2); OLen 5; OList (rev fb)] /\
+  ~ In 7 (map snd fb) /\ In 5 (map snd fb) /\ hidden_ns "l1" = false /\ hidden_ns (lower (hidden_name 7)) = true /\
+  (let m := mkMask 1 [("A"%string, 1); ("B"%string, 2); ("C"%string, 5)] [("A"%string, 1); ("B"%string, 2); ("C"%string, 16)] in
+   rt_pre m [IVal 5; IName "a"; IVal 9] = true /\
+   roundtrip m [IVal 5; IName "a"; IVal 9] = inl [("A"%string, 1); ("C"%string, 5)] /\
+   to_bitmask m [IVal 5; IName "a"; IVal 9] = inl 273).
+Proof.
+  split; [vm_compute; reflexivity|]. split; [reflexivity|].
+  split; [repeat constructor|]. split; [vm_compute; reflexivity|]. split; [vm_compute; reflexivity|].
+  split; [cbn; intuition discriminate|]. split; [cbn; auto 10|].
+  repeat split; vm_compute; reflexivity.
+Qed.
